@@ -460,7 +460,28 @@ func deriveTripCount(loop *Loop) {
 	var isUpCounting, ivOnLeft bool
 	var isInclusive, isNEQ bool
 
-	switch binOp.Op {
+	// The comparison is read below as the condition under which the loop continues. When the true branch of the
+	// exiting test is the one that leaves the loop (for { if i >= n { break }; ... }), the loop continues on the
+	// negated comparison.
+	op := binOp.Op
+	if len(exitBlock.Succs) == 2 && !loop.Blocks[exitBlock.Succs[0]] {
+		switch op {
+		case token.LSS:
+			op = token.GEQ
+		case token.LEQ:
+			op = token.GTR
+		case token.GTR:
+			op = token.LEQ
+		case token.GEQ:
+			op = token.LSS
+		case token.EQL:
+			op = token.NEQ
+		case token.NEQ:
+			op = token.EQL
+		}
+	}
+
+	switch op {
 	case token.LSS:
 		isUpCounting = true
 		ivOnLeft = true
